@@ -396,6 +396,7 @@ func c09History(c *Ctx, cs Case, prop string) {
 	// ---- correspondence with the Lean model, op by op ----
 	c.Trace()
 	m := c.Drv.Ask("sigdb.ops", pemTab, start, strings.Join(ops, ";"))
+	c.GenTie(cs, "sigdb.ops (Append / Remove / queries / AppendList / encode-decode)", m, "gen.sigdb.ops", pemTab, start, strings.Join(ops, ";"))
 	if m != strings.Join(goOuts, "/") {
 		mo := strings.Split(m, "/")
 		for i := range goOuts {
